@@ -34,9 +34,47 @@ unsafe impl lock_api::RawMutex for TinyRaw {
 
 type TM = Mutex<u8, TinyRaw>;
 
+/// C07, the same container checked twice: `pk <id> reuse-<kind> <listing 1> / <listing 2>` (equal lengths).  A `Vec` of
+/// references is filled with the first listing and handed to the checked constructor by reference; the collection is
+/// dropped, the slots of the same `Vec` are overwritten with the second listing and the constructor is called again on the
+/// same address: `pkobs <id> reuse <some|none> <some|none>`.  Each answer depends on the listing of that moment only.
+fn run_reuse(id: &str, kind: &str, t: &[&str]) -> String {
+	let cut = t.iter().position(|x| *x == "/").expect("two listings");
+	let l1: Vec<usize> = t[..cut].iter().map(|x| x.parse().unwrap()).collect();
+	let l2: Vec<usize> = t[cut + 1..].iter().map(|x| x.parse().unwrap()).collect();
+	assert_eq!(l1.len(), l2.len());
+	let r = std::panic::catch_unwind(std::panic::AssertUnwindSafe(|| {
+		let locks: [TM; 8] = std::array::from_fn(|i| TM::new(i as u8));
+		let mut refs: Vec<&TM> = l1.iter().map(|&i| &locks[i]).collect();
+		let mut answers = vec![];
+		for round in 0..2 {
+			if round == 1 {
+				for (slot, &i) in refs.iter_mut().zip(l2.iter()) {
+					*slot = &locks[i];
+				}
+			}
+			let some = match kind {
+				"boxed" => BoxedLockCollection::try_new(&refs).is_some(),
+				"ref" => RefLockCollection::try_new(&refs).is_some(),
+				"retry" => RetryingLockCollection::try_new(&refs).is_some(),
+				k => panic!("kind {k}"),
+			};
+			answers.push(if some { "some" } else { "none" });
+		}
+		answers.join(" ")
+	}));
+	match r {
+		Ok(a) => format!("pkobs {} reuse {}", id, a),
+		Err(_) => format!("pkobs {} panic", id),
+	}
+}
+
 pub fn run(line: &str) -> String {
 	let t: Vec<&str> = line.split_whitespace().collect();
 	let (id, kind) = (t[1], t[2]);
+	if let Some(k) = kind.strip_prefix("reuse-") {
+		return run_reuse(id, k, &t[3..]);
+	}
 	let listing: Vec<usize> = t[3..].iter().map(|x| x.parse().unwrap()).collect();
 	let r = std::panic::catch_unwind(std::panic::AssertUnwindSafe(|| {
 		let locks: [TM; 8] = std::array::from_fn(|i| TM::new(i as u8));
